@@ -65,26 +65,17 @@ def stream_case(draw, tier="quick"):
 
 
 def xarray_known_mask(tbl, w, layout, deviations):
-    """Row mask XarrayStream is *known* to use instead of starting <= t < ending (findings K-1, K-2, K-3); the set
-    `deviations` collects which of them actually change the mask for this window."""
+    """Row mask XarrayStream is *known* to use instead of starting <= t < ending (open finding K-2); the set `deviations`
+    collects whether it actually changes the mask for this window."""
     right = sg.row_mask(tbl, w)
     if w is None or tbl["t"] is None:
         return right
-    s, e = w.get("starting"), w.get("ending")
     if layout == "var":
         mask = [True] * tbl["n"]  # K-2: time is not a coordinate of the variable: window ignored
         if mask != right:
             deviations.add("K-2")
         return mask
-    if s is None or e is None:
-        mask = [True] * tbl["n"]  # K-1: one-sided window ignored
-        if mask != right:
-            deviations.add("K-1")
-        return mask
-    mask = [s <= tv <= e for tv in tbl["t"]]  # K-3: label slice includes the row at `ending`
-    if mask != right:
-        deviations.add("K-3")
-    return mask
+    return right
 
 
 def expected(case, single_col=None, xarray_layout=None, deviations=None):
